@@ -1,12 +1,13 @@
 import Firefly.Model.Vt
 import Firefly.Spec.Term
+import Firefly.Proof.VtCons
 /-!
 Lemmas for C17/C18: arithmetic of cell offsets, the byte-array primitives of the VT model, the
 invariant `Inv`, and one refinement lemma per VT primitive.
 -/
 namespace Firefly.VtProof
 set_option linter.unusedSimpArgs false
-open Firefly.Vt Firefly.Term
+open Firefly.Vt Firefly.Term Firefly.VtCons
 
 /-! ### arithmetic -/
 
@@ -462,6 +463,120 @@ theorem Geo.frame {t t' : VT} (g : Geo t)
   · rw [h12, h3, h6, h2, h7, h8, h9]; exact g.blank
 
 
+/-! ### the console follows the viewport (C18) -/
+
+/-- the cell shown at viewport line `r`, column `c` (0-based) -/
+def vcell (t : VT) (r c : Nat) : Cell := cellAt t.data t.viewportWidth (t.viewportY + r) c
+
+/-- `K0` is the console before the history; `t.out` is every call made since.  The console has
+the terminal's geometry, nothing was drawn outside the grid, every call was inside the grid, and
+while the terminal is Active the console shows the viewport. -/
+structure Sync (K0 : Console) (t : VT) : Prop where
+  w : (K0.applyLog t.out).w = t.viewportWidth
+  h : (K0.applyLog t.out).h = t.viewportHeight
+  wf : WF (K0.applyLog t.out)
+  outside : (K0.applyLog t.out).outside = K0.outside
+  ok : ∀ c ∈ t.out, CallOk t.viewportWidth t.viewportHeight c
+  shows : t.active = true → ∀ r c, r < t.viewportHeight → c < t.viewportWidth →
+    (K0.applyLog t.out).at r c = vcell t r c
+
+theorem emit_out (t : VT) (cs : List Call) : (emit t cs).out = if t.active then cs ++ t.out else t.out := by
+  unfold emit; split <;> simp [*]
+
+/-- nothing drawn, viewport unchanged -/
+theorem Sync.frame {K0 : Console} {t t' : VT} (s : Sync K0 t) (ho : t'.out = t.out)
+    (hw : t'.viewportWidth = t.viewportWidth) (hh : t'.viewportHeight = t.viewportHeight)
+    (ha : t'.active = true → t.active = true)
+    (hv : ∀ r c, r < t.viewportHeight → c < t.viewportWidth → vcell t' r c = vcell t r c) : Sync K0 t' := by
+  refine ⟨by rw [ho, hw]; exact s.w, by rw [ho, hh]; exact s.h, by rw [ho]; exact s.wf,
+    by rw [ho]; exact s.outside, by rw [ho, hw, hh]; exact s.ok, ?_⟩
+  intro a r c hr hc
+  rw [hh] at hr; rw [hw] at hc
+  rw [ho, hv r c hr hc]
+  exact s.shows (ha a) r c hr hc
+
+/-- a character stored at the cursor and, if Active, written to the console -/
+theorem Sync.write {K0 : Console} {t t' : VT} (s : Sync K0 t) {b fg bg : UInt8} {cx cy : Nat}
+    (hx : 1 ≤ cx ∧ cx ≤ t.viewportWidth) (hy : 1 ≤ cy ∧ cy ≤ t.viewportHeight)
+    (ho : t'.out = if t.active then [Call.write b fg bg cx cy] ++ t.out else t.out)
+    (hw : t'.viewportWidth = t.viewportWidth) (hh : t'.viewportHeight = t.viewportHeight)
+    (ha : t'.active = t.active)
+    (hv : ∀ r c, r < t.viewportHeight → c < t.viewportWidth →
+      vcell t' r c = if r = cy - 1 ∧ c = cx - 1 then ⟨b, fg, bg⟩ else vcell t r c) : Sync K0 t' := by
+  by_cases a : t.active = true
+  · have ho' : t'.out = Call.write b fg bg cx cy :: t.out := by simpa [a] using ho
+    have hxk : 1 ≤ cx ∧ cx ≤ (K0.applyLog t.out).w := by rw [s.w]; exact hx
+    have hyk : 1 ≤ cy ∧ cy ≤ (K0.applyLog t.out).h := by rw [s.h]; exact hy
+    obtain ⟨w1, w2, w3, w4, w5⟩ := write_in s.wf b fg bg hxk hyk
+    have e : K0.applyLog t'.out = (K0.applyLog t.out).write b fg bg cx cy := by rw [ho']; rfl
+    refine ⟨by rw [e, w1, hw]; exact s.w, by rw [e, w2, hh]; exact s.h, by rw [e]; exact w3,
+      by rw [e, w4]; exact s.outside, ?_, ?_⟩
+    · intro c hc
+      rw [ho'] at hc
+      rw [hw, hh]
+      cases hc with
+      | head => exact ⟨hx.1, hx.2, hy.1, hy.2⟩
+      | tail _ h => exact s.ok c h
+    · intro _ r c hr hc
+      rw [hh] at hr; rw [hw] at hc
+      rw [e, w5 r c (by rw [s.h]; exact hr) (by rw [s.w]; exact hc), hv r c hr hc, s.shows a r c hr hc]
+  · have a' : t.active = false := by simpa using a
+    have ho' : t'.out = t.out := by simpa [a'] using ho
+    refine ⟨by rw [ho', hw]; exact s.w, by rw [ho', hh]; exact s.h, by rw [ho']; exact s.wf,
+      by rw [ho']; exact s.outside, by rw [ho', hw, hh]; exact s.ok, ?_⟩
+    intro h; rw [ha, a'] at h; cases h
+
+/-- the viewport moved up by one line with a blank last line and, if Active, the console was
+scrolled and its last line filled -/
+theorem Sync.scroll {K0 : Console} {t t' : VT} (s : Sync K0 t) {fg bg : UInt8}
+    (w1 : 1 ≤ t.viewportWidth) (h1 : 1 ≤ t.viewportHeight)
+    (ho : t'.out = if t.active then [Call.fill 1 t.viewportHeight t.viewportWidth 1 fg bg,
+      Call.scroll Firefly.Gen.C17.scrollDirUp 1] ++ t.out else t.out)
+    (hw : t'.viewportWidth = t.viewportWidth) (hh : t'.viewportHeight = t.viewportHeight)
+    (ha : t'.active = t.active)
+    (hv : ∀ r c, r < t.viewportHeight → c < t.viewportWidth →
+      vcell t' r c = if r + 1 < t.viewportHeight then vcell t (r + 1) c else ⟨32, fg, bg⟩) : Sync K0 t' := by
+  by_cases a : t.active = true
+  · have ho' : t'.out = Call.fill 1 t.viewportHeight t.viewportWidth 1 fg bg ::
+        Call.scroll Firefly.Gen.C17.scrollDirUp 1 :: t.out := by simpa [a] using ho
+    have hk1 : 1 ≤ (K0.applyLog t.out).h := by rw [s.h]; exact h1
+    obtain ⟨s1, s2, s3, s4, s5⟩ := scroll1 s.wf hk1
+    have hin : 1 ≤ 1 ∧ 1 ≤ t.viewportHeight ∧ 1 + t.viewportWidth ≤ ((K0.applyLog t.out).scrollUp 1).w + 1 ∧
+        t.viewportHeight + 1 ≤ ((K0.applyLog t.out).scrollUp 1).h + 1 := by
+      rw [s1, s2, s.w, s.h]; omega
+    obtain ⟨f1, f2, f3, f4, f5⟩ := fill_in s3 fg bg hin
+    have e : K0.applyLog t'.out =
+        ((K0.applyLog t.out).scrollUp 1).fill 1 t.viewportHeight t.viewportWidth 1 fg bg := by
+      rw [ho']
+      simp [Console.applyLog, Console.apply]
+    refine ⟨by rw [e, f1, s1, hw]; exact s.w, by rw [e, f2, s2, hh]; exact s.h, by rw [e]; exact f3,
+      by rw [e, f4, s4]; exact s.outside, ?_, ?_⟩
+    · intro c hc
+      rw [ho'] at hc
+      rw [hw, hh]
+      cases hc with
+      | head => exact ⟨Nat.le_refl 1, h1, by omega, by omega⟩
+      | tail _ h =>
+        cases h with
+        | head => exact ⟨rfl, Nat.le_refl 1, h1⟩
+        | tail _ h => exact s.ok c h
+    · intro _ r c hr hc
+      rw [hh] at hr; rw [hw] at hc
+      have hrk : r < (K0.applyLog t.out).h := by rw [s.h]; exact hr
+      have hck : c < (K0.applyLog t.out).w := by rw [s.w]; exact hc
+      rw [e, f5 r c (by rw [s2]; exact hrk) (by rw [s1]; exact hck), s5 r c hrk hck, hv r c hr hc, s.h]
+      by_cases l : r + 1 < t.viewportHeight
+      · have n : ¬ (t.viewportHeight ≤ r + 1 ∧ r + 1 < t.viewportHeight + 1 ∧ 1 ≤ c + 1 ∧ c + 1 < 1 + t.viewportWidth) := by omega
+        rw [if_neg n, if_pos l, if_pos l]
+        exact s.shows a (r + 1) c l hc
+      · have p : (t.viewportHeight ≤ r + 1 ∧ r + 1 < t.viewportHeight + 1 ∧ 1 ≤ c + 1 ∧ c + 1 < 1 + t.viewportWidth) := by omega
+        rw [if_pos p, if_neg l]
+  · have a' : t.active = false := by simpa using a
+    have ho' : t'.out = t.out := by simpa [a'] using ho
+    refine ⟨by rw [ho', hw]; exact s.w, by rw [ho', hh]; exact s.h, by rw [ho']; exact s.wf,
+      by rw [ho']; exact s.outside, by rw [ho', hw, hh]; exact s.ok, ?_⟩
+    intro h; rw [ha, a'] at h; cases h
+
 @[simp] theorem emit_attached (t : VT) (cs) : (emit t cs).attached = t.attached := by unfold emit; split <;> rfl
 @[simp] theorem emit_viewportWidth (t : VT) (cs) : (emit t cs).viewportWidth = t.viewportWidth := by unfold emit; split <;> rfl
 @[simp] theorem emit_viewportHeight (t : VT) (cs) : (emit t cs).viewportHeight = t.viewportHeight := by unfold emit; split <;> rfl
@@ -493,7 +608,8 @@ theorem absVT_congr {t t' : VT}
 /-! ### `lf` -/
 
 theorem lf_spec {t : VT} (g : Geo t) :
-    ∃ t', lf t true = .ok t' ∧ Inv t' ∧ absVT t' = (absVT t).lf ∧ t'.active = t.active := by
+    ∃ t', lf t true = .ok t' ∧ Inv t' ∧ absVT t' = (absVT t).lf ∧ t'.active = t.active ∧
+      (∀ K0, Sync K0 t → Sync K0 t') ∧ (t.active = false → t'.out = t.out) := by
   have w3 := g.w3; have hsb := g.hsb
   have := g.cy1; have := g.cyh; have := g.vy; have := g.fits; have := g.w1; have := g.h1
   by_cases hA : t.cursorY + 1 ≤ t.viewportHeight
@@ -501,7 +617,7 @@ theorem lf_spec {t : VT} (g : Geo t) :
     have e : u32 (t.cursorY + 1) = t.cursorY + 1 := u32_of_lt (by omega)
     have g1 : Geo { t with cursorX := 1, cursorY := t.cursorY + 1 } :=
       g.frame rfl rfl rfl rfl rfl rfl rfl rfl rfl rfl rfl rfl (by simp) (by simpa using hA)
-    refine ⟨updateDataOffset { t with cursorX := 1, cursorY := t.cursorY + 1 }, ?_, ?_, ?_, ?_⟩
+    refine ⟨updateDataOffset { t with cursorX := 1, cursorY := t.cursorY + 1 }, ?_, ?_, ?_, ?_, ?_, ?_⟩
     · simp [lf, e, hA]
     · rw [udo_eq g1 (by simp) (by simpa using g.w1)]
       exact ⟨g1.frame rfl rfl rfl rfl rfl rfl rfl rfl rfl rfl rfl rfl g1.cy1 g1.cyh, by simp,
@@ -510,6 +626,11 @@ theorem lf_spec {t : VT} (g : Geo t) :
       have : t.cursorY < t.viewportHeight := by omega
       simp [absVT, Term.lf, this]
     · rw [udo_eq g1 (by simp) (by simpa using g.w1)]
+    · rw [udo_eq g1 (by simp) (by simpa using g.w1)]
+      intro K0 s
+      exact s.frame rfl rfl rfl (fun a => a) (fun _ _ _ _ => rfl)
+    · rw [udo_eq g1 (by simp) (by simpa using g.w1)]
+      intro _; rfl
   · have hcy : t.cursorY = t.viewportHeight := by omega
     have e : u32 (t.cursorY + 1) = t.cursorY + 1 := u32_of_lt (by omega)
     have nA : ¬ u32 (t.cursorY + 1) ≤ t.viewportHeight := by rw [e]; exact hA
@@ -529,7 +650,7 @@ theorem lf_spec {t : VT} (g : Geo t) :
         simp only [syncScroll, emit_viewportY, emit_viewportHeight, emit_scrollback, emit_viewportWidth,
           emit_data, emit_defaultFg, emit_defaultBg] at h1 h2 h3 ⊢
         exact g.blank r c (by omega) h2 h3
-      refine ⟨updateDataOffset (syncScroll { t with cursorX := 1, viewportY := t.viewportY + 1 }), ?_, ?_, ?_, ?_⟩
+      refine ⟨updateDataOffset (syncScroll { t with cursorX := 1, viewportY := t.viewportY + 1 }), ?_, ?_, ?_, ?_, ?_, ?_⟩
       · simp [lf, nA, e2, hB, e3]
       · rw [udo_eq g1 (by simp [syncScroll]) (by simpa [syncScroll] using g.w1)]
         exact ⟨g1.frame rfl rfl rfl rfl rfl rfl rfl rfl rfl rfl rfl rfl g1.cy1 g1.cyh,
@@ -540,6 +661,22 @@ theorem lf_spec {t : VT} (g : Geo t) :
         simp [absVT, Term.lf, n1, n2, syncScroll]
       · rw [udo_eq g1 (by simp [syncScroll]) (by simpa [syncScroll] using g.w1)]
         simp [syncScroll]
+      · rw [udo_eq g1 (by simp [syncScroll]) (by simpa [syncScroll] using g.w1)]
+        intro K0 s
+        refine s.scroll (fg := t.defaultFg) (bg := t.defaultBg) g.w1 g.h1 ?_ (by simp [syncScroll])
+          (by simp [syncScroll]) (by simp [syncScroll]) ?_
+        · simp [syncScroll, emit_out, hcy, g.tw]
+        · intro r c hr hc
+          simp only [vcell, syncScroll, emit_data, emit_viewportWidth, emit_viewportY]
+          by_cases l : r + 1 < t.viewportHeight
+          · rw [if_pos l]
+            have : t.viewportY + 1 + r = t.viewportY + (r + 1) := by omega
+            rw [this]
+          · rw [if_neg l]
+            exact g.blank _ c (by omega) (by omega) hc
+      · rw [udo_eq g1 (by simp [syncScroll]) (by simpa [syncScroll] using g.w1)]
+        intro a
+        simp [syncScroll, emit_out, a]
     · -- the buffer is scrolled
       have hvy : t.viewportY = t.scrollback := by rw [g.th] at hB; omega
       have nB : ¬ u32 (t.viewportY + t.viewportHeight) < t.termHeight := by rw [e2]; exact hB
@@ -573,7 +710,7 @@ theorem lf_spec {t : VT} (g : Geo t) :
         intro r c h1 h2 h3
         simp only [syncScroll, emit_viewportY, emit_viewportHeight, emit_scrollback] at h1 h2
         omega
-      refine ⟨updateDataOffset (syncScroll { t with cursorX := 1, data := d2 }), ?_, ?_, ?_, ?_⟩
+      refine ⟨updateDataOffset (syncScroll { t with cursorX := 1, data := d2 }), ?_, ?_, ?_, ?_, ?_, ?_⟩
       · simp [lf, nA, nB, hsd]
       · rw [udo_eq g1 (by simp [syncScroll]) (by simpa [syncScroll] using g.w1)]
         exact ⟨g1.frame rfl rfl rfl rfl rfl rfl rfl rfl rfl rfl rfl rfl g1.cy1 g1.cyh,
@@ -585,7 +722,24 @@ theorem lf_spec {t : VT} (g : Geo t) :
         simp [absVT, Term.lf, n1, n2, syncScroll, g.tw, g.th, hgrid, Term.blank]
       · rw [udo_eq g1 (by simp [syncScroll]) (by simpa [syncScroll] using g.w1)]
         simp [syncScroll]
-
+      · rw [udo_eq g1 (by simp [syncScroll]) (by simpa [syncScroll] using g.w1)]
+        intro K0 s
+        refine s.scroll (fg := t.defaultFg) (bg := t.defaultBg) g.w1 g.h1 ?_ (by simp [syncScroll])
+          (by simp [syncScroll]) (by simp [syncScroll]) ?_
+        · simp [syncScroll, emit_out, hcy, g.tw]
+        · intro r c hr hc
+          simp only [vcell, syncScroll, emit_data, emit_viewportWidth, emit_viewportY]
+          rw [cells _ c hc]
+          have n1 : ¬ t.viewportY + r < t.viewportY := by omega
+          by_cases l : r + 1 < t.viewportHeight
+          · have l' : t.viewportY + r < t.viewportY + t.viewportHeight - 1 := by omega
+            rw [if_neg n1, if_pos l', if_pos l]
+          · have l' : ¬ t.viewportY + r < t.viewportY + t.viewportHeight - 1 := by omega
+            have l'' : t.viewportY + r = t.viewportY + t.viewportHeight - 1 := by omega
+            rw [if_neg n1, if_neg l', if_pos l'', if_neg l]
+      · rw [udo_eq g1 (by simp [syncScroll]) (by simpa [syncScroll] using g.w1)]
+        intro a
+        simp [syncScroll, emit_out, a]
 
 /-! ### `doWrite` -/
 
